@@ -61,6 +61,12 @@ CLAIMED = {
             "value is compared (on squares, absolute-value scale) with the independently recomputed error of the iterate it belongs "
             "to; lists must be prefixes of each other and have one value per sweep. 11 algorithms, orders 2-4, sizes 2-6, ranks 1-3.",
             "Trusted: independent einsum reconstructions. Masked variants excluded (not in the statement).", "DESIGN.md §2 C06"),
+    "C07": ("iterate recorders (prefix runs, hals_nnls callback, re-fitted regressors) with from-scratch objective recomputation and a conditioning guard",
+            "For every consecutive pair of sweeps of CP-ALS (plain/normalised/line search/ridge), HALS CP, HOOI, PARAFAC2 (+-nn, +-line search), "
+            "TR-ALS, CMTF, hals_nnls and the CP/Tucker regressors the objective is recomputed independently and must not rise beyond "
+            "rounding slack when every block normal matrix has cond <= 1e6; unpenalised reported sequences must be non-increasing. "
+            "Sampled; skipped (ill-conditioned) pairs are counted and capped at 35%.",
+            "Trusted: independent reconstructions; the measurable definition of 'well conditioned'.", "DESIGN.md §2 C07"),
 }
 
 PENDING_REASON = "check not built yet in this session; see DESIGN.md §2 for the planned monitor"
